@@ -101,7 +101,7 @@ def make_handler(config, dirsel, kind, vfs=None):
     return cls(dirsel, "", None, config, st, vfs)
 
 
-def describe_world(config, root, dirsel, stat_fail=()):
+def describe_world(config, root, dirsel, stat_fail=(), unreadable=()):
     """What the model is told about the directory: per name the stat kind, what the
     real handler chain reports for the child, decoded text of the file and of its
     .cap file.  `stat_fail`: names whose vfs.stat is made to fail by the caller."""
@@ -118,15 +118,20 @@ def describe_world(config, root, dirsel, stat_fail=()):
         try:
             if n in stat_fail:
                 raise GopherExceptions.FileNotFound(sel, "injected", None)
-            h = HandlerMultiplexer.getHandler(sel, "", None, config, vfs=vfs)
-            e = h.getentry()
+            h = with_alarm(5, lambda: HandlerMultiplexer.getHandler(sel, "", None, config, vfs=vfs))
+            e = with_alarm(5, h.getentry)
             ty = e.getencodedmimetype() or e.getmimetype()
             info = {"entry": entry_fields(e), "isfile": isinstance(h, FileHandler),
                     "encoded": bool(e.getencoding()),
                     "exts": list(pygopherd.fileext.typemap.get(ty, [])) if ty else [],
                     "handler": type(h).__name__}
+        except Timeout:
+            err = "other:Timeout"
+            k = "blocks"            # building the entry never returns (a FIFO where a sidecar file is expected)
         except Exception as ex:  # noqa
             err = exc_name(ex)
+            if err == "IOErr" and n in unreadable and k == "file":
+                k = "unreadable"    # stat says regular file; the handler that takes it cannot open / re-stat it
         text = read_text(fsp) if (k == "file" and n.startswith(".")) else None
         cap = read_text(fs_path(config, base + "/.cap/" + n))
         children.append({"name": n, "kind": k, "info": info, "err": err, "text": text, "cap": cap})
